@@ -15,6 +15,7 @@ import (
 	cdb "github.com/repustate/go-cdb"
 
 	"dsim/core"
+	"dsim/sched"
 )
 
 // ---- C16: a written CDB file returns every value; dump -> make reproduces the file -------------
@@ -87,6 +88,7 @@ type segReader struct {
 var errStream = errors.New("injected stream error")
 
 func (r *segReader) Read(p []byte) (int, error) {
+	sched.Heartbeat.Add(1) // input being consumed is progress (long free-running compilations have no scheduler steps)
 	if len(p) == 0 {
 		return 0, nil
 	}
